@@ -1,5 +1,6 @@
 mod env;
 mod exec;
+mod fdlimit;
 mod findings;
 mod gen;
 mod model;
